@@ -552,10 +552,17 @@ class rhf(wave_function):
         green_walker_dn = self._calc_green(walker_dn, wave_data)
         green_walker = green_walker_up + green_walker_dn
         ene1 = jnp.sum(green_walker * rot_h1)
-        f = jnp.einsum("gij,jk->gik", rot_chol, green_walker.T, optimize="optimal")
-        c = vmap(jnp.trace)(f)
-        exc = jnp.sum(vmap(lambda x: x * x.T)(f))
-        ene2 = jnp.sum(c * c) - exc
+        f_up = jnp.einsum(
+            "gij,jk->gik", rot_chol, green_walker_up.T, optimize="optimal"
+        )
+        f_dn = jnp.einsum(
+            "gij,jk->gik", rot_chol, green_walker_dn.T, optimize="optimal"
+        )
+        c = vmap(jnp.trace)(f_up) + vmap(jnp.trace)(f_dn)
+        exc = jnp.sum(vmap(lambda x: x * x.T)(f_up)) + jnp.sum(
+            vmap(lambda x: x * x.T)(f_dn)
+        )
+        ene2 = (jnp.sum(c * c) - exc) / 2.0
         return ene2 + ene1 + ene0
 
     def _calc_rdm1(self, wave_data: dict) -> jax.Array:
